@@ -120,8 +120,8 @@ def _summary(spec, baseline, deviations, ex):
     return {"spec": spec.name, "baseline": baseline, "deviations": sorted(deviations.items(), key=repr),
             "violations": list(ex.violations), "draws": list(ex.policy.draws), "outcome": ex.outcome(),
             "commits": len(ex.commits), "legs": ex.legs, "ended": ex.ended,
-            "handlers": {k: v for k, v in ex.stats.items() if not k.startswith(("c17_", "c04_", "c01_", "c18_", "c10_"))},
-            "c01": {k: v for k, v in ex.stats.items() if k.startswith(("c01_", "c18_", "c10_"))},
+            "handlers": {k: v for k, v in ex.stats.items() if not k.startswith(("c17_", "c04_", "c01_", "c18_", "c10_", "c09_"))},
+            "c01": {k: v for k, v in ex.stats.items() if k.startswith(("c01_", "c18_", "c10_", "c09_"))},
             "c04_thinned": ex.stats.get("c04_thinned_events", 0),
             "writes": len(ex.writes), "c17_samples": ex.stats.get("c17_samples", 0),
             "not_ended": ex.stats.get("c17_not_ended", 0), "final_time": None if ex.last_time is None else ex.last_time[0] + ex.last_time[1]}
